@@ -86,3 +86,8 @@ From UDS Require Import Gen.Fn_DidInt Proofs.Tie_did_doc.
 Theorem C04_code_read_data_by_identifier : forall d, d <> [] -> (List.length d < 9)%nat -> documented (fn_rdbi_interpret d).
 Proof. exact doc_rdbi. Qed.
 Print Assumptions C04_code_read_data_by_identifier.
+
+From UDS Require Import Proofs.Tie_commctl.
+Theorem C04_code_communication_control : forall ct v node d, d <> [] -> Tie_commctl.documented (fn_communication_control_interpret ct v node d).
+Proof. exact doc_communication_control. Qed.
+Print Assumptions C04_code_communication_control.
